@@ -271,7 +271,7 @@ def run(prop, tier, seed, jobs, proof, out):
         "monitor_findings": agg["n_monitor"],
         "monitors": ["task_done-raised-ValueError", "block-exit-marks-not-exactly-once", "mark-without-block-exit",
                      "marks-ne-block-exits", "cancelled-waiter-disturbed-queue", "join-blocked-with-nothing-outstanding",
-                     "join-returned-early", "join-not-released", "task_done-outside-consumer"],
+                     "join-returned-early", "join-not-released", "task_done-outside-consumer", "item-taken-by-nobody"],
         "op_histogram": {k: v for k, v in sorted(agg["stats"].items()) if k.startswith("op:") or k == "nonfifo-run"},
         "exit_kind_histogram": {k[5:]: v for k, v in sorted(agg["stats"].items()) if k.startswith("exit:")},
         "profile_histogram": dict(agg["profiles"]),
